@@ -312,3 +312,34 @@ mut("c10-close-token-is-comma", "C10", "MUST", "hclsyntax/parser.go",
     "\t\t\t// A trailing comma after the last argument gets us in here.\n\t\t\tcloseTok = p.Read() // eat closing paren", "\t\t\t// A trailing comma after the last argument gets us in here.\n\t\t\tcloseTok = sep\n\t\t\tp.Read() // eat closing paren", "token.kind")
 mut("c12-accessor-counts-reads", "C12", "MUST", "hclwrite/ast_block.go",
     "func (bl *blockLabels) Current() []string {\n", "func (bl *blockLabels) Current() []string {\n\tbl.items.Add(nil)\n", "accessor.readonly")
+
+# ---- rules of DESIGN §9.18 -----------------------------------------------------------------------------
+mut("c07-visit-stops-at-blockspec", "C07", "MUST", "hcldec/public.go",
+    "\t\t\t\t\tret[blockS.Type] = nested\n\t\t\t\t}\n\t\t\t}\n\t\t}\n", "\t\t\t\t\tret[blockS.Type] = nested\n\t\t\t\t}\n\t\t\t}\n\t\t\treturn\n\t\t}\n", "visit.recurse")
+mut("c07-keep-visit-two-sites", "C07", "KEEP", "hcldec/public.go",
+    "\t\tif bs, ok := s.(blockSpec); ok {\n\t\t\tfor _, blockS := range bs.blockHeaderSchemata() {",
+    "\t\tbs, ok := s.(blockSpec)\n\t\tif !ok {\n\t\t\ts.visitSameBodyChildren(visit)\n\t\t\treturn\n\t\t}\n\t\t{\n\t\t\tfor _, blockS := range bs.blockHeaderSchemata() {", "")
+mut("c13-entry-strips-bom", "C13", "MUST", "json/public.go",
+    "\trootNode, diags := parseFileContent(src, filename, start)", "\tif len(src) >= 3 && src[0] == 0xef && src[1] == 0xbb && src[2] == 0xbf {\n\t\tsrc = src[3:]\n\t}\n\trootNode, diags := parseFileContent(src, filename, start)", "entry.verbatim")
+mut("c13-keep-entry-local", "C13", "KEEP", "json/public.go",
+    "\trootNode, diags := parseFileContent(src, filename, start)", "\tbuf := src\n\trootNode, diags := parseFileContent(buf, filename, start)", "")
+mut("c15-must-parse-number", "C15", "MUST", "json/parser.go",
+    "\tnv, err := cty.ParseNumberVal(string(num))", "\tnv, err := cty.MustParseNumberVal(string(num)), error(nil)", "must.calls")
+mut("c15-runelen-unchecked", "C15", "MUST", "hclsyntax/parser.go",
+    "\t\t\t\tif l == -1 {", "\t\t\t\tif num > utf8.MaxRune {", "runelen.guard")
+mut("c15-keep-runelen-negative", "C15", "KEEP", "hclsyntax/parser.go",
+    "\t\t\t\tif l == -1 {", "\t\t\t\tif l < 0 {", "")
+mut("c09-format-trims", "C09", "MUST", "hclwrite/public.go",
+    "\ttokens.WriteTo(buf)\n\treturn buf.Bytes()", "\ttokens.WriteTo(buf)\n\treturn bytes.TrimRight(buf.Bytes(), \" \")", "output.buffer")
+mut("c09-keep-format-local", "C09", "KEEP", "hclwrite/public.go",
+    "\ttokens.WriteTo(buf)\n\treturn buf.Bytes()", "\ttokens.WriteTo(buf)\n\tout := buf.Bytes()\n\treturn out", "")
+mut("c14-read-skips-ahead", "C14", "MUST", "hclsyntax/peeker.go",
+    "\tret, nextIdx := p.nextToken()\n\tp.NextIndex = nextIdx\n\treturn ret", "\tret, nextIdx := p.nextToken()\n\tif nextIdx < len(p.Tokens)-1 && p.Tokens[nextIdx].Type == TokenComment {\n\t\tnextIdx++\n\t}\n\tp.NextIndex = nextIdx\n\treturn ret", "peeker.index")
+mut("c14-relative-range-from-steps", "C14", "MUST", "hclsyntax/parser.go",
+    "\tcase *RelativeTraversalExpr:\n\t\ttexpr.Traversal = append(texpr.Traversal, next)\n\t\ttexpr.SrcRange = hcl.RangeBetween(texpr.SrcRange, rng)", "\tcase *RelativeTraversalExpr:\n\t\ttexpr.SrcRange = hcl.RangeBetween(texpr.SrcRange, texpr.Traversal.SourceRange())\n\t\ttexpr.Traversal = append(texpr.Traversal, next)", "range.param")
+mut("c18-label-count-only-empty", "C18", "MUST", "ext/dynblock/expand_spec.go",
+    "\t\t} else if len(labelExprs) < len(blockS.LabelNames) {", "\t\t} else if len(labelExprs) == 0 {", "label.count")
+mut("c18-keep-label-count-neq", "C18", "KEEP", "ext/dynblock/expand_spec.go",
+    "\t\t} else if len(labelExprs) < len(blockS.LabelNames) {", "\t\t} else if len(labelExprs) != len(blockS.LabelNames) {", "")
+mut("c19-userfunc-param-unmarked", "C19", "MUST", "ext/userfunc/decode.go",
+    "\t\t\t\tAllowMarked: true,\n\t\t\t})", "\t\t\t})", "userfunc.marks")
